@@ -66,7 +66,7 @@ def scenario_schedules(seed, salt, reps=1):
     for rep in range(reps):
         # --- n=4, inst=0: leader(1)=1, leader(2)=2, leader(3)=3 ---------------------------------------------------
         # A. Byzantine leader of round 2; member 0 prepared (and committed) value 2 in round 1, members 1,3 did not.
-        for defect in range(8):
+        for defect in range(10):
             hon = [0, 1, 3]
             pre = [config_step(4, 0, [2])] + [{"ev": "Start", "p": p} for p in hon] + \
                   [{"ev": "Input", "p": p, "v": 1 + (p % 2)} for p in hon] + \
@@ -100,7 +100,7 @@ def scenario_schedules(seed, salt, reps=1):
                                    "defect": defect, "seed": r.randrange(1 << 30), "to": r.sample(hon, 2)}, tail(steps=80)])
         # E. Byzantine leader of round 3 (member 3); member 0 holds a prepared certificate from round 1, everybody timed out
         #    twice: PRE-PREPAREs for round 3 whose justification is almost right (each defect, both proposed values)
-        for defect in range(8):
+        for defect in range(10):
             for v in (1, 2):
                 hon = [0, 1, 2]
                 pre = [config_step(4, 0, [3])] + [{"ev": "Start", "p": p} for p in hon] + \
